@@ -226,20 +226,21 @@ def State.update (s : State) (id : Nat) (f : Lease → Lease) : State := { s wit
 
 def State.fresh (s : State) : Nat × State := (s.nextId, { s with nextId := s.nextId + 1 })
 
-/-- `allocateLease` with `addrAvailable = true`, i.e. `reserveLease`.
-`none` in the first component: error; `some none`: no address left. -/
-def allocateLease (c : Conf) (mac : Bytes) (s : State) : State × Option (Option Nat) :=
+/-- `allocateLease` with `addrAvailable = true`, i.e. `reserveLease`.  The
+lease is returned as it is right after the call (the caller reads its address
+and hostname before changing it).  `none`: error; `some none`: no address left. -/
+def allocateLease (c : Conf) (mac : Bytes) (s : State) : State × Option (Option Lease) :=
   match nextIP c s with
   | none =>
     match findExpired s.now s.leases with
     | none => (s, some none)
-    | some l => (s.update l.id (fun x => { x with mac := copyInto x.mac mac }), some (some l.id))
+    | some l =>
+      (s.update l.id (fun x => { x with mac := copyInto x.mac mac }), some (some { l with mac := copyInto l.mac mac }))
   | some ip =>
-    let (id, s) := s.fresh
-    let l : Lease := { id := id, mac := mac, ip := ip, host := [], static := false, exp := 0 }
-    match addLease c l s with
-    | .error _ => (s, none)
-    | .ok s' => (s', some (some id))
+    let l : Lease := { id := s.nextId, mac := mac, ip := ip, host := [], static := false, exp := 0 }
+    match addLease c l s.fresh.2 with
+    | .error _ => (s.fresh.2, none)
+    | .ok s' => (s', some (some l))
 
 /-! ### replies -/
 
@@ -282,10 +283,7 @@ def handleDiscover (c : Conf) (mac : Bytes) (s : State) : State × Reply :=
     match allocateLease c mac s with
     | (s, none) => (s.store, Reply.nak)
     | (s, some none) => (s.store, Reply.nak)
-    | (s, some (some id)) =>
-      match s.deref id with
-      | some l => (s.store, { rc := 1, typ := 2, yi := l.ip, err := "ok" })
-      | none => (s.store, Reply.nak)   -- unreachable: the id was just handed out
+    | (s, some (some l)) => (s.store, { rc := 1, typ := 2, yi := l.ip, err := "ok" })
 
 /-- `checkLease`: the first lease of the MAC; `(none, true)` is the mismatch. -/
 def checkLease (mac : Bytes) (ip : Nat) (s : State) : Option Lease × Bool :=
@@ -354,15 +352,12 @@ def handleDecline (c : Conf) (mac : Bytes) (reqPresent : Bool) (reqIP ciaddr : N
       match allocateLease c mac s with
       | (s, none) => (s.store, Reply.nak)
       | (s, some none) => (s.store, { rc := 1, typ := 5, yi := 0, err := "ok" })
-      | (s, some (some id)) =>
-        match s.deref id with
-        | none => (s.store, Reply.nak)   -- unreachable
-        | some nl =>
-          let prev := nl.host
-          let s1 := if prev ≠ [] ∧ prev ≠ old.host then s.delHost prev else s
-          let s2 := s1.update id (fun x => { x with host := old.host, exp := s.now + c.leaseTime })
-          let s3 := if old.host ≠ [] then s2.setHost old.host id else s2
-          (s3.store, { rc := 1, typ := 5, yi := nl.ip, err := "ok" })
+      | (s, some (some nl)) =>
+        let prev := nl.host
+        let s1 := if prev ≠ [] ∧ prev ≠ old.host then s.delHost prev else s
+        let s2 := s1.update nl.id (fun x => { x with host := old.host, exp := s.now + c.leaseTime })
+        let s3 := if old.host ≠ [] then s2.setHost old.host nl.id else s2
+        (s3.store, { rc := 1, typ := 5, yi := nl.ip, err := "ok" })
 
 /-- The `for _, l := range s.leases` of `handleRelease`: the slice header is
 evaluated once, so slot `k` of the backing array (`leases ++ stale`) is read
